@@ -16,7 +16,7 @@ def run(ctx):
     stages.chan_family(ctx, ["C02."], lambda s: s["pre"]["status"] in ("Completed", "Failed", "Cancelled"))
     ctx.exhaustive = False
     # manager level: the same property on a real manager (messages, API calls, transport callbacks)
-    stages.mgr_family(ctx, ["C02."], ["all"], lambda s: s["t"]["hasPre"] and s["t"]["pre"]["status"] in ("Completed", "Failed", "Cancelled"), quick_n=3000, model=not ctx.quick(), sims=False, invariants=["M_C02_Final"])
+    stages.mgr_family(ctx, ["C02."], ["all"], lambda s: s["t"]["hasPre"] and s["t"]["pre"]["status"] in ("Completed", "Failed", "Cancelled"), quick_n=3000, model=not ctx.quick(), sims=False, invariants=["M_C02_Final"], keep=lambda l: any(k in l for k in ('"status":"Completed"', '"status":"Failed"', '"status":"Cancelled"')))
     if not ctx.quick():
         # the repository's own 275 tests, run with the trace hook: every transition they execute is judged
         stages.repo_suite_traces(ctx, ["C02."])
